@@ -17,7 +17,8 @@ of length `= L` / `≤ L` from `v`, resp. from a start vertex to `v`), so `List.
 Words are joined with `Rep.joinW` (repaired code): plain concatenation for a `parse_simple`
 representation (`joinW_simple`), `"*"`-joined otherwise.  The memo theorems hold for every
 representation; the language theorems and `accepted_pairs` carry `hp : ρ.parseSimple = true`;
-`accepted_pairs_nonsimple` covers `parse_simple=False` with single-generator edge labels.
+`accepted_pairs_any` / `accepted_pairs_nonsimple` cover every representation (`parse_simple=False`
+included), the words being parsed by the representation's own `parse_word`.
 `Rep.automatonAcceptedD` is the public call on a caller-supplied dict (`Rep.PreDict`: recorded
 options + memo entries); `Rep.GuardOK` is its invariant (`precomputed_guard_sound`).
 -/
@@ -101,6 +102,14 @@ theorem precomputed_guard_sound (ρ : Rep n R) (a : Aut V) (L : Nat) (maxlen wit
         res = toRes (topOpts maxlen withWords endState edgeWords) pairs :=
   Rep.precomputed_guard_sound ρ a L maxlen withWords startState endState d edgeWords hd
 
+/-- any sequence `cs` of public calls (`Rep.Call`: length, options, states) sharing one dict
+(`Rep.runCalls`) that satisfied the invariant at the start, e.g. `{}`: every value returned by
+every call is the specified one for that call's options (`Rep.CallOK`) -/
+theorem precomputed_guard_calls (ρ : Rep n R) (a : Aut V) (cs : List (Call V))
+    (d : PreDict V n R) (hd : GuardOK ρ a d) :
+    GuardOK ρ a (ρ.runCalls a cs d).2 ∧ List.Forall₂ (CallOK ρ a) cs (ρ.runCalls a cs d).1 :=
+  Rep.precomputed_guard_calls ρ a cs d hd
+
 /-- a dict that recorded other options is refused with `ValueError` and left unchanged -/
 theorem precomputed_guard_refuses (ρ : Rep n R) (a : Aut V) (L : Nat) (maxlen withWords : Bool)
     (startState endState : Option V) (d : PreDict V n R) (edgeWords : Bool)
@@ -139,6 +148,62 @@ theorem automatonAccepted_pairs (ρ : Rep n R) (a : Aut V) (L : Nat) (maxlen : B
     (h : ρ.automatonAccepted a L maxlen true startState endState memo edgeWords = .ok (res, memo')) :
     List.Forall₂ (fun s M => ρ.value (parseWord true s) = .ok (DMat.toMatrix M)) res.words res.mats :=
   Rep.automatonAccepted_pairs ρ a L maxlen startState endState memo memo' edgeWords res hp hL hm h
+
+/-! ### every representation (`parse_simple=False`: words joined with `"*"`) -/
+
+/-- parsing a joined word gives the concatenation of the parsed parts, with
+`simple = self.parse_simple` (for `parse_simple=False`: `parse_word(a + "*" + b) = parse_word(a) +
+parse_word(b)`, empty tokens being dropped) -/
+theorem parseWord_joinW (ρ : Rep n R) (w1 w2 : String) :
+    parseWord ρ.parseSimple (ρ.joinW w1 w2) =
+      parseWord ρ.parseSimple w1 ++ parseWord ρ.parseSimple w2 := Rep.parseWord_joinW ρ w1 w2
+
+/-- every pair `(w, M)` of the specification has `M = ρ(parse_word(w))`, the word parsed the way
+the representation parses words — any representation -/
+theorem accepted_pairs_spec_any (ρ : Rep n R) (a : Aut V) (o : AccOpts) (hL : LabelOKg ρ o)
+    (L : Nat) (v : V) (pairs : List (String × DMat n n R)) (h : ρ.accSpec a o L v = .ok pairs) :
+    ∀ sM ∈ pairs, ρ.value (parseWord ρ.parseSimple sM.1) = .ok sM.2.toMatrix :=
+  Rep.accSpec_pairs_g ρ a o hL L v pairs h
+
+/-- … and of what `_automaton_accepted(..., with_words=True)` returns on a sound dict -/
+theorem accepted_pairs_any (ρ : Rep n R) (a : Aut V) (L : Nat) (o : AccOpts) (v : V)
+    (memo memo' : Memo V n R) (res : AccRes n R) (hL : LabelOKg ρ o) (hw : o.withWords = true)
+    (hm : MemoOK ρ a o memo) (h : ρ.accepted a L o (some v) memo = .ok (res, memo')) :
+    List.Forall₂ (fun s M => ρ.value (parseWord ρ.parseSimple s) = .ok (DMat.toMatrix M))
+      res.words res.mats :=
+  Rep.accepted_pairs_g ρ a L o v memo memo' res hL hw hm h
+
+/-- the public wrapper, every choice of start / end state, any representation -/
+theorem automatonAccepted_pairs_any (ρ : Rep n R) (a : Aut V) (L : Nat) (maxlen : Bool)
+    (startState endState : Option V) (memo memo' : Memo V n R) (edgeWords : Bool)
+    (res : AccRes n R) (hL : LabelOKg ρ (topOpts maxlen true endState edgeWords))
+    (hm : MemoOK ρ a (topOpts maxlen true endState edgeWords) memo)
+    (h : ρ.automatonAccepted a L maxlen true startState endState memo edgeWords = .ok (res, memo')) :
+    List.Forall₂ (fun s M => ρ.value (parseWord ρ.parseSimple s) = .ok (DMat.toMatrix M))
+      res.words res.mats :=
+  Rep.automatonAccepted_pairs_g ρ a L maxlen startState endState memo memo' edgeWords res hL hm h
+
+/-- **`accepted_pairs` for `parse_simple=False`**: if every edge label that has an edge element
+evaluates (as a `"*"`-separated word) to that element, the k-th matrix returned is the image of
+the k-th returned (`"*"`-joined) word -/
+theorem accepted_pairs_nonsimple (ρ : Rep n R) (a : Aut V) (L : Nat) (o : AccOpts) (v : V)
+    (memo memo' : Memo V n R) (res : AccRes n R) (hp : ρ.parseSimple = false)
+    (hL : ∀ l A, ρ.edgeElt o l = .ok A → ρ.value (parseWord false l) = .ok A.toMatrix)
+    (hw : o.withWords = true) (hm : MemoOK ρ a o memo)
+    (h : ρ.accepted a L o (some v) memo = .ok (res, memo')) :
+    List.Forall₂ (fun s M => ρ.value (parseWord false s) = .ok (DMat.toMatrix M))
+      res.words res.mats :=
+  Rep.accepted_pairs_nonsimple ρ a L o v memo memo' res hp hL hw hm h
+
+/-- the label hypothesis is automatic for `edge_words=True`, whatever `parse_simple` -/
+theorem labelOKg_edgeWords (ρ : Rep n R) (o : AccOpts) (he : o.edgeWords = true) : LabelOKg ρ o :=
+  Rep.labelOKg_of_edgeWords ρ o he
+
+/-- `edge_words=False`, `parse_simple=False`: it holds when every generator name passed the checks
+of `_set_generator` (non-empty, none of `( ) *`) -/
+theorem labelOKg_validNames (ρ : Rep n R) (o : AccOpts) (hp : ρ.parseSimple = false)
+    (he : o.edgeWords = false) (h1 : ∀ g ∈ ρ.gens.map Prod.fst, validName g = true) :
+    LabelOKg ρ o := Rep.labelOKg_of_validNames ρ o hp he h1
 
 /-- `with_words=False` returns the very same matrices (fresh dict) -/
 theorem accepted_mats_withWords_irrel (ρ : Rep n R) (a : Aut V) (L : Nat) (o : AccOpts) (v : V)
@@ -283,8 +348,15 @@ example :
     ((r0.automatonAcceptedD a0 1 true true (some 1) none d true).1.toOption.map (·.words)) =
       some ["", "a", "b"] := by
   decide
+example : ((r0.runCalls a0 [⟨2, true, true, some 0, none, true⟩, ⟨2, false, true, some 0, none, true⟩,
+    ⟨1, true, true, some 1, none, true⟩] {}).1.map errOf) = [none, some "ValueError", none] := by
+  decide
 example : GuardOK r0 a0 (r0.automatonAcceptedD a0 2 true true (some 0) none {} true).2 :=
   (precomputed_guard_sound r0 a0 2 true true (some 0) none {} true (guard_empty _ _)).1
+
+example : LabelOKg r0ns { withWords := true, edgeWords := false } :=
+  labelOKg_validNames r0ns _ rfl rfl (by decide)
+example : LabelOKg r0ns { withWords := true } := labelOKg_edgeWords r0ns _ rfl
 
 /-- `parse_simple=False`: the words are joined with `"*"` -/
 example : ((r0ns.accepted a0 2 { withWords := true } (some 0) []).toOption.map (·.1.words)) =
